@@ -106,6 +106,9 @@ func suiteSerde(rn *runner, r *rng, tier string) {
 				c.expectLast(ordRoots(roots))
 				c.emit("wf q")
 				c.expectLast("wf " + ordRoots(roots))
+				// … and the rebuilt NOP runs count down to the next live entry exactly
+				c.emit("nopsexact q")
+				c.expectLast("exact")
 				c.emit("iter i q")
 				c.emit("marshal i")
 				c.emit("iter j p")
